@@ -59,7 +59,6 @@ prop(
     "C07",
     level_text="Theorems for every history (no bound): every field of every state-carrying struct (FrameDecoderState, DecoderScratch, FSEScratch, HuffmanScratch, DecodeBuffer, FSETable, HuffmanTable, RingBuffer) is touched by its reset — the field lists and the sets of fields each reset assigns/clears are extracted from the source text on every run, so a forgotten field breaks a theorem; on the model, the state a successful reset leaves is a function of (source, dictionaries, limit) only, operations never change dictionaries or limit, hence after ANY history the next frame is decoded exactly as by a fresh decoder (reuse_eq_fresh). That each Rust clearing statement clears what the model says is tied by the reuse/hostile engines: hook state dump right after reset and full transcripts of probe frames that need a clean state, reused vs fresh.",
     engines=[{"name": "reuse"}, {"name": "hostile"}],
-    also_reports=[],
     modelled="Decoder.reset / resetCore mirror FrameDecoder::reset, FrameDecoderState::{new,reset}; the per-field effect of the reset statements is not modelled individually — it is covered by the extracted field-coverage theorems plus the state-dump correspondence",
     assumptions=["Vec::clear / Option = None / XxHash64::with_seed(0) do what their names say", "ring-buffer capacity and positions are unobservable through the byte-queue interface (C04)"],
 )
@@ -69,6 +68,7 @@ prop(
     "C09",
     level_text="Theorems on the decoder model for every frame header, dictionary registry and buffer state: a frame naming an unregistered dictionary is refused with DictNotProvided before any block is decoded (missing_dict_error); with the dictionary registered reset seeds exactly entropy tables, repeat offsets and content (init_from_dict_state); a header without dictionary id starts from the empty state whatever is registered (no_dict_without_id; later frames: C07 reuse_eq_fresh); offsets beyond dictionary+output and dictionary reach-back after more than a window of output are rejected. The byte-level equality of reaching into the dictionary with the RFC copy (repeat_from_dict_eq_spec) is not yet proved: partial. Tie to the code: engine dict (reference trainer dictionaries, libzstd dictionary frames with/without id, several dictionaries, synthetic frames straddling the dictionary boundary at every alignment; model replays every operation), engine reuse (dictionary leaks).",
     engines=[{"name": "dict"}, {"name": "reuse"}],
+    also_reports={"dict": ["C01", "C06", "C08", "C10"]},
     modelled="dictionary selection (resetCore/applyDictChoice/forceDict) and DecodeBuffer::repeat_from_dict on the abstract buffer mirror the Rust; the dictionary FILE parser in the executable model is the Spec parser (strict) — ruzstd's Dictionary::decode_dict is compared with it on every trained dictionary",
     assumptions=["libzstd (zstd crate) as referee for dictionary frames; note libzstd lets matches reach into the dictionary header bytes, the harness counts a frame as valid only if its RFC executor accepts it too"],
 )
